@@ -410,10 +410,15 @@ pub fn prop07() -> HistProp {
     let mut p = CfgProfile::general();
     p.fluct = true;
     p.real_feed = None;
+    // caps may be lowered after a position was opened, whitelists edited: neither stands in the way of a liquidation
+    p.caps = true;
+    p.caps_light = true;
     let mut wts = liq_weights();
     wts.edge = 5;
     // the pauser halts / resumes trading in between: liquidations are not trading
     wts.pause = 2;
+    wts.vcfg = 7;
+    wts.whitelist = 2;
     HistProp {
         id: "C07",
         level: "exploration",
